@@ -628,6 +628,8 @@ Proof.
   destruct (PSF2_MAXVERSION <? le32_at data 4); [discriminate|].
   destruct (negb _ || (MAX_GLYPHS <? le32_at data 16)) eqn:T; [discriminate|].
   apply orb_false_iff in T. destruct T as [_ T]. apply N.ltb_ge in T.
+  destruct (_ || (MAX_FONT_HEIGHT <? le32_at data 24)); [discriminate|].
+  destruct (negb (le32_at data 20 =? le32_at data 24)); [discriminate|].
   destruct (drop (le32_at data 8) data) as [body|]; [|discriminate].
   apply mk_font_done in H. destruct H as [g [H ->]]. rewrite glyphs_n_eq in H. cbn [ft_length ft_glyphs].
   split; [exact T|]. exists body. split; [reflexivity|exact H].
@@ -644,6 +646,8 @@ Proof.
   destruct (usize_checked (le32_at data 16 * le32_at data 20)) as [size|] eqn:U1; [|discriminate].
   destruct (usize_checked (size + le32_at data 8)) as [e|] eqn:U2; [|discriminate].
   apply N.eqb_eq in T. apply usize_checked_some in U2.
+  destruct (_ || (MAX_FONT_HEIGHT <? le32_at data 24)); [left; reflexivity|].
+  destruct (negb (le32_at data 20 =? le32_at data 24)); [left; reflexivity|].
   destruct (drop_some (le32_at data 8) data) as [body B]; [lia|]. rewrite B.
   rewrite glyphs_n_eq. destruct (glyphs_total_proof conv (N.to_nat (le32_at data 24)) body) as [g G]. rewrite G.
   right. eexists. reflexivity.
@@ -660,9 +664,10 @@ Proof.
   destruct (shorter data 4) eqn:S4; [left; reflexivity|]. apply shorter_false in S4.
   destruct (_ =? PSF1_MAGIC).
   - destruct data as [|a [|b [|c [|d rest]]]]; cbn [length] in S4; try lia. unfold load_psf1.
+    destruct (_ || _); [left; reflexivity|].
     destruct (glyphs_total_proof conv (N.to_nat d) rest) as [g G]. rewrite G. right. eexists. reflexivity.
   - destruct (_ =? PSF2_MAGIC); [apply load_psf2_total|].
-    unfold load_plain. cbv zeta. destruct (negb _); [left; reflexivity|].
+    unfold load_plain. cbv zeta. destruct (_ || _); [left; reflexivity|].
     destruct (glyphs_total_proof conv (N.to_nat (N.of_nat (length data) / 256)) data) as [g G]. rewrite G.
     right. eexists. reflexivity.
 Qed.
@@ -681,13 +686,14 @@ Proof.
   destruct (shorter data 4); [discriminate|].
   destruct (_ =? PSF1_MAGIC).
   - unfold load_psf1 in H. destruct data as [|a [|b [|c [|d rest]]]]; try discriminate.
+    destruct (_ || _); [discriminate|].
     apply mk_font_done in H. destruct H as [g [H ->]]. cbn [ft_length ft_glyphs]. split.
     + eapply glyphs_keys_below_max_proof; [exact SC|exact H].
     + rewrite max_glyphs_eq. destruct (_ =? _); lia.
   - destruct (_ =? PSF2_MAGIC).
     + apply load_psf2_done in H. destruct H as [L [body [_ G]]]. split; [|exact L].
       eapply glyphs_keys_below_max_proof; [exact SC|exact G].
-    + unfold load_plain in H. cbv zeta in H. destruct (negb _); [discriminate|].
+    + unfold load_plain in H. cbv zeta in H. destruct (_ || _); [discriminate|].
       apply mk_font_done in H. destruct H as [g [H ->]]. cbn [ft_length ft_glyphs]. split.
       * eapply glyphs_keys_below_max_proof; [exact SC|exact H].
       * rewrite max_glyphs_eq. lia.
